@@ -363,3 +363,39 @@ def u_validity(c):
     if st == "ok" and nfocus <= 1:
         st, back = run(it, it.get_global(S, "parse"), [enc])
         c.prove("encode/parses-back-to-the-same-object", st == "ok" and back is top, note=str(enc))
+
+
+@unit("selector-structure", ["C12", "C03", "C07", "C13"], [S + ":Call.hasval", S + ":Element.hasval", S + ":Call.all_values", S + ":Element.all_values",
+                                                           S + ":Call.all_captures", S + ":Element.all_captures", S + ":Call.focus", S + ":Call.all_tags"],
+      mode="bounded", bound="selector trees of depth <= 3 (outer > inner > leaf) with one capture per level, a value condition at any subset of levels")
+def u_selector_structure(c):
+    """The derived views of a compiled selector look at the WHOLE tree: hasval iff some element at any depth carries a value
+    condition (this is what switches the capture filter on), all_values lists exactly those elements (own captures first,
+    then children), all_captures is the set of every capture name, focus iff some element at any depth is focused."""
+    it = Interp(c)
+    Element = it.get_global(S, "Element")
+    Call = it.get_global(S, "Call")
+    depth = 1 + c.choose(3, "depth")
+    valued = [bool(c.choose(2, "valued")) for _ in range(depth)]
+    focus_at = c.choose(depth + 1, "focus") - 1
+    els = []
+    node = None
+    for lvl in range(depth - 1, -1, -1):
+        kw = dict(name=f"v{lvl}", capture=f"v{lvl}")
+        if valued[lvl]:
+            kw["value"] = lvl + 100
+        if lvl == focus_at:
+            kw["tags"] = frozenset({1})
+        e = it.call(Element, [], kw)
+        els.insert(0, e)
+        fn = SymObj(f"f{lvl}", Val.ref(z3.IntVal(c.new_id())))
+        node = it.call(Call, [], dict(element=it.call(Element, [], dict(name=fn)), captures=(e,), children=(node,) if node is not None else ()))
+    c.prove("hasval/iff-a-condition-anywhere-in-the-tree", it.getattr(node, "hasval") == any(valued))
+    av = it.getattr(node, "all_values")
+    c.prove("all_values/exactly-the-valued-elements-outermost-first", isinstance(av, list) and len(av) == sum(valued)
+            and all(a is b for a, b in zip(av, [e for e, v in zip(els, valued) if v])))
+    c.prove("all_captures/every-capture-name", it.getattr(node, "all_captures") == {f"v{l}" for l in range(depth)})
+    c.prove("focus/anywhere-in-the-tree", it.getattr(node, "focus") == (focus_at >= 0))
+    tags = it.getattr(node, "all_tags")
+    c.prove("all_tags/focus-tag-maps-to-the-focused-element", (set(tags.keys()) == ({1} if focus_at >= 0 else set()))
+            and (focus_at < 0 or tags[1] == {els[focus_at]}))
